@@ -13,7 +13,7 @@ LEVEL = 'proof'
 
 
 def make_case(rng):
-    prog = progs.gen_program(rng, twins=rng.chance(1, 2), opts={'snaps': True, 'ticks': True})       # ticks: lines that last (up to > 2**32 clock units)
+    prog = progs.gen_program(rng, twins=rng.chance(1, 2), opts={'snaps': True, 'ticks': True, 'renable': True})       # ticks: lines that last (up to > 2**32 clock units)
     names = [n for (_f, n, _k) in prog['funcs']]
     steps = []
     nsteps = rng.below(10) + 4
